@@ -398,6 +398,35 @@ pub fn run_total(args: &[String]) {
                 }
             }
         }
+        "idents" => {
+            // one representative per Unicode class as an identifier character (alone, as a suffix, in the middle), used
+            // consistently in every binding position of a program that is otherwise well typed: whatever the lexer decides,
+            // every later stage (incl. code generation) must cope with the names it let through
+            let chars: Vec<char> = vec![
+                'é', 'ß', 'Ω', 'ж', '变', 'ñ', 'ǅ', 'ʰ', 'ª', // letters: Ll Lu Lo Lt Lm
+                '٣', '९', '０', // decimal digits outside ASCII (Nd)
+                '²', '½', '①', '⑴', '㊿', '𝟘', // other numbers (No) and mathematical digits
+                'Ⅷ', 'ⅷ', '〇', // letter numbers (Nl)
+                '\u{0301}', '\u{093e}', '\u{20dd}', // combining marks Mn Mc Me
+                '‿', '⁀', '＿', // connector punctuation (Pc)
+                'Ⓐ', '℮', '™', '°', '€', '±', '√', '∞', // symbols So Sm Sc
+                '😀', '𝄞', '🇫', // astral symbols
+                '\u{200d}', '\u{200c}', '\u{00ad}', '\u{feff}', '\u{2060}', // format characters (Cf)
+                '\u{00a0}', '\u{3000}', '\u{2028}', // spaces / separators
+                '·', '\u{0387}', '\u{1369}', // Other_ID_Continue
+                '$', '@', '?', '!', '`', '\'', // ASCII punctuation some languages allow
+            ];
+            let tpl = "model M{N}:\n    f{N}: int\n\n\nenum E{N}:\n    V{N}\n    W{N}(int)\n\n\ndef g{N}(p{N}: int) -> int:\n    v{N} = p{N} + 1\n    m = M{N}(f{N}=v{N})\n    for i{N} in range(2):\n        pass\n    match E{N}.W{N}(1):\n        case E{N}.W{N}(b{N}):\n            return b{N} + m.f{N}\n        case _:\n            return v{N}\n\n\ndef main() -> None:\n    println(g{N}(1))\n";
+            let mut k: u64 = 0;
+            for ch in chars {
+                for name in [format!("a{ch}"), format!("a{ch}b"), format!("{ch}"), format!("{ch}a"), format!("a{ch}{ch}")] {
+                    k += 1;
+                    if shard.mine(k) {
+                        run_one(&tpl.replace("{N}", &name), "idents", &uri, &mut t, &mut out);
+                    }
+                }
+            }
+        }
         "stdin" => {
             // one JSON string per line
             let stdin = std::io::stdin();
